@@ -378,10 +378,12 @@ Proof.
   { destruct ((len =? 1) || (len =? 2) || (len =? 4)); [|discriminate].
     destruct (aread_n len l) as [[x r0]|e] eqn:Ht; [|discriminate]. intro H; inversion H; subst. astab_read Ht. reflexivity. }
   destruct (ty =? attr_signed_int).
-  { destruct ((len =? 1) || (len =? 4)).
-    - destruct (aread_n len l) as [[x r0]|e] eqn:Ht; [|discriminate]. intro H; inversion H; subst. astab_read Ht. reflexivity.
-    - destruct (len =? 2); [|discriminate].
-      destruct (aread_n 2 l) as [[x r0]|e] eqn:Ht; [|discriminate]. intro H; inversion H; subst. astab_read Ht. reflexivity. }
+  { destruct (len =? 1).
+    - destruct (aread_n 1 l) as [[x r0]|e] eqn:Ht; [|discriminate]. intro H; inversion H; subst. astab_read Ht. reflexivity.
+    - destruct (len =? 4).
+      + destruct (aread_n 4 l) as [[x r0]|e] eqn:Ht; [|discriminate]. intro H; inversion H; subst. astab_read Ht. reflexivity.
+      + destruct (len =? 2); [|discriminate].
+        destruct (aread_n 2 l) as [[x r0]|e] eqn:Ht; [|discriminate]. intro H; inversion H; subst. astab_read Ht. reflexivity. }
   destruct (ty =? attr_floating_point).
   { destruct (len =? 4).
     - destruct (aread_n 4 l) as [[x r0]|e] eqn:Ht; [|discriminate]. intro H; inversion H; subst. astab_read Ht. reflexivity.
@@ -1287,4 +1289,54 @@ Proof.
   - destruct Hw as [_ Hc]. destruct (Hpref 1 c Hc) as [H1 _]. split; [exact H1|]. intros; discriminate.
   - destruct Hw as [_ Hc]. destruct (Hpref 2 c Hc) as [H1 _]. split; [exact H1|]. intros; discriminate.
   - destruct Hw as [_ [_ [len [raw [info [Hp _]]]]]]. subst p. split; [reflexivity|]. intros; discriminate.
+Qed.
+
+(* ---------------------------------------------------------------------------------------------- *)
+(* Part 6: the application header (control octet, function code, IIN)                               *)
+
+Lemma actl_to_of : forall x, x < 256 -> actl_to (actl_of x) = x.
+Proof.
+  assert (H : forallb (fun x => actl_to (actl_of x) =? x) (nrange 256) = true) by (vm_compute; reflexivity).
+  intros x Hx. rewrite forallb_forall in H. apply N.eqb_eq. apply H.
+  unfold nrange. replace x with (N.of_nat (N.to_nat x)) by lia. apply in_map. apply in_seq. lia.
+Qed.
+
+Lemma actl_of_to : forall c, ac_seq c < 16 -> actl_of (actl_to c) = c.
+Proof.
+  intros [fir fin con uns s] Hs. cbn [ac_seq] in Hs.
+  assert (H : s = 0 \/ s = 1 \/ s = 2 \/ s = 3 \/ s = 4 \/ s = 5 \/ s = 6 \/ s = 7 \/ s = 8
+              \/ s = 9 \/ s = 10 \/ s = 11 \/ s = 12 \/ s = 13 \/ s = 14 \/ s = 15) by lia.
+  destruct fir, fin, con, uns;
+    repeat (destruct H as [H|H]; [subst s; reflexivity|]); subst s; reflexivity.
+Qed.
+
+(* the header a writer emits is parsed back: control bits, sequence, function, IIN, and the objects are
+   everything that follows *)
+Theorem header_round_trip : forall h objs, ac_seq (ah_control h) < 16 -> afunction_known (ah_function h) = true ->
+  (afunction_has_iin (ah_function h) = true <-> ah_iin h <> None) ->
+  aparse_header (awrite_header h ++ objs) = AOk (h, objs).
+Proof.
+  intros [c f iin] objs Hs Hk Hi. cbn [ah_control ah_function ah_iin] in *.
+  unfold awrite_header, aparse_header. cbn [ah_control ah_function ah_iin app]. rewrite Hk.
+  rewrite (actl_of_to c Hs). destruct (afunction_has_iin f) eqn:Hf.
+  - destruct iin as [[i1 i2]|]; [reflexivity|]. exfalso. apply (proj1 Hi); reflexivity.
+  - destruct iin as [[i1 i2]|]; [|reflexivity]. exfalso. assert (false = true) by (apply Hi; discriminate). discriminate.
+Qed.
+
+(* and the header parser accepts only what such a writer could have written *)
+Theorem header_parse_exact : forall l h objs, abytes_ok l -> aparse_header l = AOk (h, objs) ->
+  l = awrite_header h ++ objs /\ afunction_known (ah_function h) = true
+  /\ ac_seq (ah_control h) < 16 /\ (afunction_has_iin (ah_function h) = true <-> ah_iin h <> None).
+Proof.
+  intros l h objs Hb H. unfold aparse_header in H. destruct l as [|c [|f r]]; try discriminate.
+  apply abytes_ok_cons in Hb. destruct Hb as [Hc _].
+  assert (Hseq : ac_seq (actl_of c) < 16).
+  { unfold actl_of. cbn [ac_seq]. change ctrl_seq_mask with (N.ones 4). rewrite N.land_ones.
+    change (2 ^ 4) with 16. apply N.mod_lt. lia. }
+  destruct (afunction_known f) eqn:Hk; [|discriminate]. destruct (afunction_has_iin f) eqn:Hi.
+  - destruct r as [|i1 [|i2 r']]; try discriminate. inversion H; subst. unfold awrite_header.
+    cbn [ah_control ah_function ah_iin app]. rewrite (actl_to_of c Hc). repeat split; auto; discriminate.
+  - inversion H; subst. unfold awrite_header. cbn [ah_control ah_function ah_iin app].
+    rewrite (actl_to_of c Hc). split; [reflexivity|]. split; [assumption|]. split; [assumption|].
+    split; [intro Hn; congruence|intro Hn; exfalso; apply Hn; reflexivity].
 Qed.
